@@ -34,6 +34,8 @@
 //            shared (=, copy), modified (insert/append, resize); NoCopy flag kept, writes through a shared handle refused.
 //    encode: mpt::encode_array without encoder (round 6): push, push(0,0), data(), shift(n), shift(), prepare(n), copy / assignment.
 // Round 6: buffers created by _mpt_buffer_map (one page and more) are a seed kind of the raw flavour.
+// Round 7: allocation-failure injection (vp::alloc_fail_after) for a small share of the modifying steps of both scenarios:
+//    the k-th (1..3) library allocation of the call fails; labels inject:<op>, inject:cxx, inject:hit.
 // Round 5: user flags of a buffer (NoCopy, other user bits) are modelled per handle and must survive every operation
 //    (flag-lost / flag-gained); a shared NoCopy buffer with data is never copied (nocopy-copied).
 #include "vp.hpp"
@@ -87,6 +89,8 @@ struct World {
   std::string tagbuf;
   struct Frozen { CBuf *b; std::vector<uint8_t> bytes; };
   std::vector<Frozen> frozen;     // buffers created with BufferImmutable and their content at that time
+  long inj_k = 0, inj_f0 = 0;     // allocation-failure injection (round 7): k-th library allocation of the next call fails
+  bool inj_hit = false;           // the last library call met the injected failure
   int lp_i = -1;                  // last pre(): target, its buffer, and whether that was a shared NoCopy buffer with content
   CBuf *lp_b = 0;
   bool lp_ncs = false;
@@ -123,6 +127,24 @@ struct World {
     if ((p.shared || p.immutable || p.grow) && p.others) c.nontrivial();
   }
   void outcome(const char *op, bool ok) { c.label((std::string(ok ? "ok:" : "refused:") + op).c_str()); }
+  // allocation-failure injection around exactly one library call: a refusal caused by it is an allocation failure (allowed,
+  // not subject to the twin rule); everything C04 says about a refused operation applies, as does the normal oracle when
+  // the call needs no allocation or gets along without the failed one
+  void arm(const char *op) {
+    inj_hit = false;
+    if (!inj_k) return;
+    c.label(!strcmp(op, "push") || !strcmp(op, "reduce") || !strcmp(op, "array_string") ? "inject:other" : (std::string("inject:") + op).c_str());   // (160 label slots)
+    c.logf("    (allocation %ld of this call is made to fail)", inj_k);
+    inj_f0 = alloc_failures();
+    alloc_fail_after(inj_k);
+  }
+  void disarm() {
+    if (!inj_k) return;
+    inj_hit = alloc_failures() > inj_f0;
+    alloc_fail_after(0);
+    inj_k = 0;
+    if (inj_hit) { c.label("inject:hit"); c.logf("    (the allocation failed)"); }
+  }
 
   size_t dsize(size_t used, size_t cap, size_t max) { return c.near({0, used, cap, 64, 128, 192}, max); }
   // largest drawn size: as before for heap buffers; a memory mapped buffer (a page and more) gets its size on top, so that
@@ -287,7 +309,9 @@ struct World {
     std::vector<uint8_t> d = zero ? std::vector<uint8_t>(hg ? 0 : len, 0) : pattern(len);
     Pre p = pre(i, !hg && len > cap - used);
     c.logf("  mpt_array_append(h%d, len=%zu, %s)   [%s]", i, len, zero ? "NULL" : hex(d.data(), d.size(), 8).c_str(), desc(i).c_str());
+    arm("append");
     void *r = mpt_array_append(x.arr(), len, zero ? 0 : d.data());
+    disarm();
     c.logf("    = %s", r ? "address" : "NULL");
     VP_CHECK(c, !(hg && r), "not-refused:append", "mpt_array_append(len=%zu) on %zu used bytes succeeded", len, used);
     if (r) {
@@ -298,7 +322,7 @@ struct World {
     }
     outcome("append", r);
     verify("append", i, !r);
-    if (!r) twin_check("append", i, [&](array *a) { return mpt_array_append(a, len, zero ? 0 : d.data()) != 0; });
+    if (!r && !inj_hit) twin_check("append", i, [&](array *a) { return mpt_array_append(a, len, zero ? 0 : d.data()) != 0; });
   }
 
   void op_insert() {
@@ -311,7 +335,9 @@ struct World {
     size_t len = hg ? huge() : al(c.near({0, cap > base ? cap - base : 0, 64, 128, 192}, mx(b, 300)), e);
     Pre p = pre(i, !hg && base + len > cap);
     c.logf("  mpt_array_insert(h%d, pos=%zu, len=%zu)   [%s]", i, pos, len, desc(i).c_str());
+    arm("insert");
     void *r = mpt_array_insert(x.arr(), pos, len);
+    disarm();
     c.logf("    = %s", r ? "address" : "NULL");
     VP_CHECK(c, !(hg && r), "not-refused:insert", "mpt_array_insert(pos=%zu, len=%zu) succeeded", pos, len);
     if (r) {
@@ -326,7 +352,7 @@ struct World {
     }
     outcome("insert", r);
     verify("insert", i, !r);
-    if (!r) twin_check("insert", i, [&](array *a) { return mpt_array_insert(a, pos, len) != 0; });
+    if (!r && !inj_hit) twin_check("insert", i, [&](array *a) { return mpt_array_insert(a, pos, len) != 0; });
   }
 
   void op_set() {
@@ -349,7 +375,9 @@ struct World {
     bool must = hg || p < 0;
     Pre pr = pre(i, !must && (size_t)p + len > cap);
     c.logf("  mpt_array_set(h%d, %s, len=%zu, %s, off=%ld)   [%s]", i, tname(t), len, zero ? "NULL" : hex(d.data(), d.size(), 8).c_str(), off, desc(i).c_str());
+    arm("set");
     void *r = mpt_array_set(x.arr(), t, len, zero ? 0 : d.data(), off);
+    disarm();
     c.logf("    = %s", r ? "address" : "NULL");
     VP_CHECK(c, !(must && r), "not-refused:set", "mpt_array_set(len=%zu, off=%ld) with %zu used bytes (byte position %lld) succeeded", len, off, used, p);
     if (r) {
@@ -361,7 +389,7 @@ struct World {
     }
     outcome("set", r);
     verify("set", i, !r);
-    if (!r) twin_check("set", i, [&](array *a) { return mpt_array_set(a, t, len, zero ? 0 : d.data(), off) != 0; });
+    if (!r && !inj_hit) twin_check("set", i, [&](array *a) { return mpt_array_set(a, t, len, zero ? 0 : d.data(), off) != 0; });
   }
 
   void op_slice() {
@@ -374,7 +402,9 @@ struct World {
     size_t len = hg ? huge() : al(c.near({0, used > off ? used - off : 0, cap > off ? cap - off : 0, 64, 128, 192}, mx(b, 300)), e);
     Pre p = pre(i, !hg && off + len > cap);
     c.logf("  mpt_array_slice(h%d, off=%zu, len=%zu)   [%s]", i, off, len, desc(i).c_str());
+    arm("slice");
     void *r = mpt_array_slice(x.arr(), off, len);
+    disarm();
     c.logf("    = %s", r ? "address" : "NULL");
     VP_CHECK(c, !(hg && r), "not-refused:slice", "mpt_array_slice(off=%zu, len=%zu) succeeded", off, len);
     if (r) {
@@ -392,7 +422,7 @@ struct World {
     }
     outcome("slice", r);
     verify("slice", i, !r);
-    if (!r) twin_check("slice", i, [&](array *a) { return mpt_array_slice(a, off, len) != 0; });
+    if (!r && !inj_hit) twin_check("slice", i, [&](array *a) { return mpt_array_slice(a, off, len) != 0; });
   }
 
   void op_reserve() {
@@ -406,7 +436,9 @@ struct World {
     uint32_t fl = b ? flags(b) : 0;
     Pre p = pre(i, len > cap);
     c.logf("  mpt_array_reserve(h%d, len=%zu, %s)   [%s]", i, len, tname(t), desc(i).c_str());
+    arm("reserve");
     buffer *r = mpt_array_reserve(x.arr(), len, t);
+    disarm();
     c.logf("    = %s", r ? "buffer" : "NULL");
     if (r) {
       VP_CHECK(c, lib(x.buf()) == r, "ret-address:reserve", "returned buffer %p is not the buffer of the array %p", (void *)r, (void *)x.buf());
@@ -425,7 +457,7 @@ struct World {
     }
     outcome("reserve", r);
     verify("reserve", i, !r);
-    if (!r) twin_check("reserve", i, [&](array *a) { return mpt_array_reserve(a, len, t) != 0; });
+    if (!r && !inj_hit) twin_check("reserve", i, [&](array *a) { return mpt_array_reserve(a, len, t) != 0; });
   }
 
   void op_clone() {
@@ -454,7 +486,9 @@ struct World {
     int i = pick_array(true);
     c.logf("  mpt_array_reduce(h%d)   [%s]", i, desc(i).c_str());
     pre(i, false);
+    arm("reduce");
     size_t r = mpt_array_reduce(h[i].arr());
+    disarm();
     c.logf("    = %zu", r);
     outcome("reduce", true);
     verify("reduce", i, false);
@@ -469,7 +503,9 @@ struct World {
     size_t len = al(c.near({0, used, used ? used - 1 : 0, cap, cap + 1, 64, 128, 192}, mx(b, 400)), e);
     Pre p = pre(i, len > cap);
     c.logf("  h%d: buf->detach(%zu)   [%s]", i, len, desc(i).c_str());
+    arm("detach");
     CBuf *n = b->vptr->detach(b, len);
+    disarm();
     c.logf("    = %s", !n ? "NULL" : n == b ? "same buffer" : "new buffer");
     if (n) {
       cbuf(x.arr()) = n;
@@ -602,7 +638,9 @@ struct World {
     std::vector<uint8_t> d = zero ? std::vector<uint8_t>(nblk * size, 0) : pattern(size ? nblk * size : 4);
     Pre p = pre(i, nblk * size > avail);
     c.logf("  mpt_slice_write(h%d, nblk=%zu, %s, size=%zu)   [%s]", i, nblk, zero ? "NULL" : hex(d.data(), d.size(), 8).c_str(), size, desc(i).c_str());
+    arm("slice_write");
     ssize_t r = mpt_slice_write(x.sl, nblk, zero ? 0 : d.data(), size);
+    disarm();
     c.logf("    = %zd", r);
     if (r >= 0 && size) {
       VP_CHECK(c, (size_t)r <= nblk, "slice-write-count", "mpt_slice_write(nblk=%zu, size=%zu) reports %zd elements written", nblk, size, r);
@@ -636,7 +674,9 @@ struct World {
     std::vector<uint8_t> d = pattern(len);
     Pre p = pre(i, max + len > cap);
     c.logf("  mpt_array_push(h%d, len=%zu, %s)   [%s]", i, len, hex(d.data(), d.size(), 8).c_str(), desc(i).c_str());
+    arm("push");
     ssize_t r = mpt_array_push(x.enc, len, d.data());
+    disarm();
     c.logf("    = %zd", r);
     if (r >= 0) {
       VP_CHECK(c, (size_t)r <= len, "push-count", "mpt_array_push(len=%zu) consumed %zd", len, r);
@@ -708,7 +748,9 @@ struct World {
       case 2: w = (int)L; s = text(c.range(0, 5)); n = snprintf(want, sizeof want, "%*s", w, s.c_str()); break;
       default: v = (int)c.u8() - 100; s = text(L); n = snprintf(want, sizeof want, "[%s|%d]", s.c_str(), v); break;
     }
+    arm("printf");
     r = print(a);
+    disarm();
     c.logf("    = %d, the formatted text has %d characters", r, n);
     if (r >= 0) {
       x.m.insert(x.m.end(), want, want + n);
@@ -717,7 +759,7 @@ struct World {
     }
     outcome("printf", r >= 0);
     verify("printf", i, r < 0);
-    if (r < 0) twin_check("printf", i, [&](array *ta) { return print(ta) >= 0; });
+    if (r < 0 && !inj_hit) twin_check("printf", i, [&](array *ta) { return print(ta) >= 0; });
   }
 
   void op_string() {
@@ -727,7 +769,9 @@ struct World {
     CBuf *b = x.buf();
     Pre p = pre(i, b && b->used == b->size);
     c.logf("  mpt_array_string(h%d)   [%s]", i, desc(i).c_str());
+    arm("array_string");
     char *r = mpt_array_string(x.arr());
+    disarm();
     c.logf("    = %s", r ? "address" : "NULL");
     if (r) {
       b = x.buf();
@@ -891,6 +935,13 @@ struct World {
       // every other value keeps its earlier meaning (byte % total weight) so that saved cases decode as before
       unsigned byte = (unsigned)c.range(0, 255), r = byte % tot, op = 0;
       ++nops;
+      inj_k = 0;
+      alloc_fail_after(0);
+      if (byte >= 240 && byte < 248) {   // round 7: the operation drawn next runs with a failing allocation
+        inj_k = 1 + (long)c.pick(3);
+        byte = (unsigned)c.range(0, 247);
+        r = byte % tot;
+      }
       if (byte >= 248) {
         if (byte < 253 && !(flavor == FChar && byte >= 251)) op_far(); else op_printf_conv();
         continue;
@@ -917,6 +968,8 @@ struct World {
       }
     }
     c.count("ops", nops);
+    inj_k = 0;
+    alloc_fail_after(0);
     for (int i = 0; i < NH; i++) release(i, "final-release");
   }
 };
@@ -927,6 +980,43 @@ struct World {
 // =====================================================================================================
 
 std::string vtag(const char *cls, const char *op) { return std::string("cxx-") + cls + ":" + op; }
+
+// allocation-failure injection in the C++ scenarios (round 7): the operation byte values 248..255 mean "the operation
+// drawn next runs with the k-th library allocation failing" (k and the operation are drawn only in that branch; every
+// other value keeps its meaning byte % total weight). Armed at the start of an eligible (modifying) operation, switched
+// off when its result is verified. Oracle: as for any refusal (reported, nothing changed) or complete success.
+struct Inject {
+  long k = 0, f0 = 0;
+  bool armed = false, hit = false;
+  unsigned select(Ctx &c, std::initializer_list<unsigned> w) {
+    unsigned tot = 0, sel = 0;
+    for (unsigned x : w) tot += x;
+    unsigned byte = (unsigned)c.range(0, 255);
+    k = 0;
+    if (byte >= 248) { k = 1 + (long)c.pick(3); byte = (unsigned)c.range(0, 247); }
+    unsigned r = byte % tot;
+    for (unsigned x : w) { if (r < x) break; r -= x; ++sel; }
+    return sel;
+  }
+  void arm(Ctx &c, bool eligible) {
+    hit = armed = false;
+    if (!k || !eligible) { k = 0; return; }
+    c.label("inject:cxx");
+    c.logf("    (library allocation %ld of the next operation is made to fail)", k);
+    f0 = alloc_failures();
+    alloc_fail_after(k);
+    armed = true;
+  }
+  void disarm(Ctx &c) {
+    if (armed) {
+      hit = alloc_failures() > f0;
+      alloc_fail_after(0);
+      if (hit) { c.label("inject:hit"); c.logf("    (the allocation failed)"); }
+    }
+    armed = false;
+    k = 0;
+  }
+};
 
 // ---- bytes: mpt::array and mpt::slice ---------------------------------------------------------------
 struct CxxBytes {
@@ -980,7 +1070,9 @@ struct CxxBytes {
              "slice window of %ld bytes is not inside the %zu used bytes of its buffer", d.size(), used);
     return std::vector<uint8_t>(d.begin(), d.begin() + d.size());
   }
+  Inject inj;
   void verify(const char *op, int target, bool refused) {  // target: array index, NA = the slice, -1 none
+    inj.disarm(c);
     for (int k = 0; k < NA; k++) {
       int i = (target + 1 + k + NA + 1) % NA;
       std::vector<uint8_t> got = bytes(*a[i]);
@@ -997,7 +1089,7 @@ struct CxxBytes {
     if (sh) { c.label("cxx-nt:write-while-shared"); c.nontrivial(); }
     return sh;
   }
-  void outcome(const char *op, bool ok) { if (!ok && (op[0] == '+' || op[0] == '=')) op = "operator"; c.label((std::string(ok ? "cxx-ok:" : "cxx-refused:") + op).c_str()); }
+  void outcome(const char *op, bool ok) { if (op[0] == '+' || op[0] == '=') op = "operator"; c.label((std::string(ok ? "cxx-ok:" : "cxx-refused:") + op).c_str()); }
   size_t dsize(int i, size_t max) { size_t used = a[i]->length(), cap = used + a[i]->left(); return c.near({0, used, cap, 64, 128, 192}, max); }
 
   void run() {
@@ -1014,7 +1106,10 @@ struct CxxBytes {
       int i = (int)c.pick(NA), j = (int)c.pick(NA);
       array &x = *a[i];
       size_t used = m[i].size();
-      switch (c.weighted({8, 8, 8, 3, 10, 2, 2, 2, 2, 2, 4, 2, 5, 4, 4, 6})) {
+      inj.disarm(c);
+      unsigned opsel = inj.select(c, {8, 8, 8, 3, 10, 2, 2, 2, 2, 2, 4, 2, 5, 4, 4, 6});
+      inj.arm(c, opsel != 4 && opsel != 12 && opsel != 13 && opsel != 14);
+      switch (opsel) {
         case 0: {  // set(len, base)
           size_t len = dsize(i, 300);
           bool zero = c.chance(48);
@@ -1188,8 +1283,10 @@ struct CxxBytes {
         } break;
       }
     }
+    inj.disarm(c);
     if (s) { c.logf("  delete slice"); delete s; s = 0; verify("delete", -1, false); }
     for (int i = 0; i < NA; i++) {
+      inj.disarm(c);
       c.logf("  delete a%d", i);
       delete a[i];
       a[i] = new array();
@@ -1236,7 +1333,9 @@ struct CxxTyped {
     VP_CHECK(c, n >= 0 && (n == 0 || b), "cxx-typed-length", "%s: length %ld with begin %p", name, n, (void *)b);
     return std::vector<T>(b, b + n);
   }
+  Inject inj;
   void verify(const char *op, int target, bool refused) {
+    inj.disarm(c);
     for (int k = 0; k < NA; k++) {
       int i = (target + 1 + k + NA + 1) % NA;
       std::vector<T> got = elems(*a[i]);
@@ -1262,7 +1361,8 @@ struct CxxTyped {
   bool wsh = false;   // a write is about to go through a handle that shares a buffer holding elements
   void outcome(const char *op, bool ok) {
     if (ok && (!strcmp(op, "assign") || !strcmp(op, "copy"))) op = "share";   // (the engine keeps 160 labels)
-    c.label(ok ? (std::string("cxx-ok:") + name + "." + op).c_str() : (std::string("cxx-refused:typed.") + op).c_str());
+    bool common = !strcmp(op, "share") || !strcmp(op, "get") || !strcmp(op, "reserve") || !strcmp(op, "detach");
+    c.label(ok ? (std::string("cxx-ok:") + (common ? "typed" : name) + "." + op).c_str() : (std::string("cxx-refused:typed.") + op).c_str());
   }
   bool shares(int i) { for (int j = 0; j < NA; j++) if (j != i && a[j]->length() && a[j]->begin() == a[i]->begin()) return true; return false; }
   void writing(int i) { if (shares(i)) { c.label("cxx-nt:write-while-shared"); c.nontrivial(); wsh = true; } }
@@ -1284,7 +1384,9 @@ struct CxxTyped {
       int i = (int)c.pick(NA), j = (int)c.pick(NA);
       Arr &x = *a[i];
       size_t len = m[i].size();
-      unsigned op = (unsigned)c.weighted({12, 10, 10, 4, 5, 4, 3, 3, (unsigned)(Kind == TPointer ? 5 : 0), (unsigned)(Kind == TPointer ? 5 : 0), 2});
+      inj.disarm(c);
+      unsigned op = inj.select(c, {12, 10, 10, 4, 5, 4, 3, 3, (unsigned)(Kind == TPointer ? 5 : 0), (unsigned)(Kind == TPointer ? 5 : 0), 2});
+      inj.arm(c, op == 0 || op == 1 || (op >= 5 && op <= 9));
       switch (op) {
         case 0: {  // insert
           long pos = c.chance(40) ? -(long)c.near({0, 1, len, len + 1}, 40) : (long)c.near({0, len, len + 1, 16, 48}, 60);
@@ -1374,6 +1476,7 @@ struct CxxTyped {
       }
     }
     for (int i = 0; i < NA; i++) {
+      inj.disarm(c);
       c.logf("  delete a%d", i);
       delete a[i];
       a[i] = new Arr();
@@ -1400,8 +1503,11 @@ struct CxxTyped {
     VP_CHECK(c, x.unused() == un, vtag("target-mismatch", (std::string(name) + ".unused").c_str()).c_str(), "unused() = %ld, the model has %ld null elements", x.unused(), un);
     writing(i);
     x.compact();
-    m[i].erase(std::remove(m[i].begin(), m[i].end(), (T)0), m[i].end());
-    outcome("compact", true); verify("compact", i, false);
+    inj.disarm(c);
+    // compact() has no result: with a failed allocation it may leave the (shared) elements as they are
+    bool skipped = inj.hit && elems(x) == m[i];
+    if (!skipped) m[i].erase(std::remove(m[i].begin(), m[i].end(), (T)0), m[i].end());
+    outcome("compact", !skipped); verify("compact", i, skipped);
   }
   template <int K = Kind> typename std::enable_if<K != TPointer>::type do_compact(Arr &, int) {}
   template <int K = Kind> typename std::enable_if<K == TPointer>::type do_swap(Arr &x, int i, size_t len) {
@@ -1435,7 +1541,9 @@ struct CxxMap {
     if (v.size() > 10) r += " ..(" + std::to_string(v.size()) + ")";
     return r + "}";
   }
+  Inject inj;
   void verify(const char *op, int target, bool refused) {
+    inj.disarm(c);
     for (int k = 0; k < NA; k++) {
       int i = (target + 1 + k + NA + 1) % NA;
       Model got = entries(*a[i]);
@@ -1460,14 +1568,17 @@ struct CxxMap {
       size_t hit = 0;
       while (hit < m[i].size() && m[i][hit].first != k) ++hit;
       bool found = hit < m[i].size();
-      switch (c.weighted({10, 5, 6, 4, 3, 6})) {
+      inj.disarm(c);
+      unsigned opsel = inj.select(c, {10, 5, 6, 4, 3, 6});
+      inj.arm(c, opsel < 2);
+      switch (opsel) {
         case 0: {
           c.logf("  m%d.set(%d, %d)   [%s]", i, k, v, found ? "key present" : "new key");
           if (shares(i)) { c.label("cxx-nt:write-while-shared"); c.nontrivial(); }
           bool r = x.set(k, v);
           c.logf("    = %d", r);
           if (r) { if (found) m[i][hit].second = v; else m[i].push_back(std::make_pair(k, v)); }
-          c.label(r ? (found ? "cxx-ok:map.set-existing" : "cxx-ok:map.set-new") : "cxx-refused:map.set"); verify("set", i, !r);
+          c.label(r ? (found ? "cxx-ok:map.set-existing" : "cxx-ok:map.set-new") : "cxx-refused:map"); verify("set", i, !r);
         } break;
         case 1: {
           c.logf("  m%d.append(%d, %d)", i, k, v);
@@ -1475,7 +1586,7 @@ struct CxxMap {
           bool r = x.append(k, v);
           c.logf("    = %d", r);
           if (r) m[i].push_back(std::make_pair(k, v));
-          c.label(r ? "cxx-ok:map.append" : "cxx-refused:map.append"); verify("append", i, !r);
+          c.label(r ? "cxx-ok:map.append" : "cxx-refused:map"); verify("append", i, !r);
         } break;
         case 2: {
           int32_t *r = x.get(k);
@@ -1507,6 +1618,7 @@ struct CxxMap {
       }
     }
     for (int i = 0; i < NA; i++) {
+      inj.disarm(c);
       c.logf("  delete m%d", i);
       delete a[i];
       a[i] = new Map();
@@ -1546,7 +1658,9 @@ struct CxxRef {
 
   std::string tagn(const char *cls, const char *op) { return vtag(cls, (std::string(name) + "." + op).c_str()); }
   bool shares(int i) { for (int j = 0; j < NA; j++) if (j != i && a[j]->length() && a[j]->begin() == a[i]->begin()) return true; return false; }
+  Inject inj;
   void verify(const char *op, int target, bool refused, bool wrote_shared) {
+    inj.disarm(c);
     VP_CHECK(c, !(wrote_shared && !refused), tagn("nocopy-copied", op).c_str(), "%s on a%d succeeded although its no-copy buffer was shared with another array", op, target);
     std::set<RObj *> alive;
     for (int k = 0; k < NA; k++) {
@@ -1585,14 +1699,17 @@ struct CxxRef {
       int i = (int)c.pick(NA), j = (int)c.pick(NA);
       size_t len = m[i].size();
       bool sh = shares(i) && len;
-      switch (c.weighted({6, 4, 5, 3, 3})) {
+      inj.disarm(c);
+      unsigned opsel = inj.select(c, {6, 4, 5, 3, 3});
+      inj.arm(c, opsel == 0 || opsel == 1 || opsel == 4);
+      switch (opsel) {
         case 0: {  // grow to an element count at a capacity step
           size_t n = c.near({s1, s1 + 1, s2, s2 + 1, s3, s3 + 1}, s3 + 4), added = 0;
           c.logf("  a%d: append up to %zu elements   [%zu elements%s]", i, n, len, sh ? ", shared" : "");
           bool r = true;
           while (r && m[i].size() < n) { r = add(i, (long)m[i].size()); if (r) ++added; }
           c.logf("    %zu appended%s", added, r ? "" : ", then refused");
-          if (added) { c.label("cxx-ref:grown"); if (len <= s1 && m[i].size() > s1) { c.label("cxx-ref:crossed-first-block"); c.nontrivial(); } }
+          if (added) { if (len <= s1 && m[i].size() > s1) { c.label("cxx-ref:crossed-first-block"); c.nontrivial(); } }
           if (sh) c.label(added ? "cxx-ref:shared-write-accepted" : "cxx-ref:shared-write-refused");
           verify("append", i, !added, sh && added);
         } break;
@@ -1632,6 +1749,7 @@ struct CxxRef {
       }
     }
     for (int i = 0; i < NA; i++) {
+      inj.disarm(c);
       c.logf("  delete a%d", i);
       delete a[i];
       a[i] = new Arr();
@@ -1681,7 +1799,9 @@ struct CxxEnc {
     c.fail(vtag(cls, (std::string("encode_array.") + op).c_str()).c_str(), "after %s: %s of %s reads %zu bytes, the value model has %zu; first difference at %zu: read ..%s, model ..%s", op, what, desc(i).c_str(), got.size(),
            want.size(), d, hex(got.data() + std::min(from, got.size()), got.size() - std::min(from, got.size()), 24).c_str(), hex(want.data() + std::min(from, want.size()), want.size() - std::min(from, want.size()), 24).c_str());
   }
+  Inject inj;
   void verify(const char *op, int target, bool refused) {
+    inj.disarm(c);
     for (int k = 0; k < NA; k++) {
       int i = (target + 1 + k + NA + 1) % NA;
       const char *cls = refused ? "refused-changed" : i == target ? "target-mismatch" : "other-changed";
@@ -1709,8 +1829,10 @@ struct CxxEnc {
       int i = (int)c.pick(NA), j = (int)c.pick(NA);
       encode_array &x = *e[i];
       Model &mm = m[i];
-      unsigned op = (unsigned)c.weighted({10, 5, 5, 5, 5, 6, 3});
+      inj.disarm(c);
+      unsigned op = inj.select(c, {10, 5, 5, 5, 5, 6, 3});
       if (op == 0 && !mm.cons.empty()) op = 3;   // compact before new data
+      inj.arm(c, op == 0 || op == 3 || op == 4);
       bool sh = shared(i);
       if (sh && (op == 0 || op == 3 || op == 4)) { c.label("cxx-nt:write-while-shared"); c.nontrivial(); }
       switch (op) {
@@ -1776,6 +1898,7 @@ struct CxxEnc {
       }
     }
     for (int i = 0; i < NA; i++) {
+      inj.disarm(c);
       c.logf("  delete e%d", i);
       delete e[i];
       e[i] = new encode_array();
@@ -1811,6 +1934,10 @@ void run_cxx(Ctx &c) {
 void run(Ctx &c) {
   // everything the case creates is released by the history itself (final-release); when an oracle fails the
   // handles are abandoned on purpose: the library state is not trusted any more and the process is left
+  // the scalar type table is created lazily by the first mpt_type_traits() call of the process (and does not check its
+  // allocation: type registry, C06): create it outside any injected failure so that a case does not depend on process history
+  alloc_fail_after(0);
+  (void)mpt_type_traits('c');
   uint8_t sel = c.u8();
   if (sel % 4 == 3) { c.label("scenario:cxx"); run_cxx(c); return; }
   c.label("scenario:c");
